@@ -578,12 +578,31 @@ def run_fileops(spec, work, ctx):
             replace=False)]
         rows_c = [int(x) for x in rng.choice(
             n, size=int(rng.integers(1, n + 1)), replace=False)]
+        # one file holding two different matrices (X = the rows reversed,
+        # layer 'alt' = the matrix itself), asked for twice, once per layer
+        two = work / f'two_layers{it}.h5ad'
+        enc3 = str(rng.choice(['dense', 'csr', 'csc']))
+        conv = {'dense': np.asarray,
+                'csr': scipy.sparse.csr_matrix,
+                'csc': scipy.sparse.csc_matrix}[enc3]
+        anndata.AnnData(
+            X=conv(M[::-1].copy()), layers={'alt': conv(M.copy())},
+            obs=pd.DataFrame(index=obs),
+            var=pd.DataFrame(index=var)).write_h5ad(two)
+        rows_d = [int(x) for x in rng.choice(
+            n, size=int(rng.integers(1, n + 1)), replace=False)]
+        rows_e = [int(x) for x in rng.choice(
+            n, size=int(rng.integers(1, n + 1)), replace=False)]
         src_rows = [
             {'path': str(csr), 'rows': rows_a, 'layer': 'X'},
+            {'path': str(two), 'rows': rows_d, 'layer': 'X'},
             {'path': str(p2), 'rows': rows_b, 'layer': 'X'},
             {'path': str(dense_layer), 'rows': rows_c,
-             'layer': 'raw_counts'}]
-        expect = np.vstack([M[rows_a], M2[rows_b], M[rows_c]])
+             'layer': 'raw_counts'},
+            {'path': str(two), 'rows': rows_e, 'layer': 'alt'}]
+        expect = np.vstack([M[rows_a], M[::-1][rows_d], M2[rows_b],
+                            M[rows_c], M[rows_e]])
+        ctx.bump('amalgamations_with_two_layers_of_one_file')
         for dst_sparse in (True, False):
             dst = work / f'amal{it}_{int(dst_sparse)}.h5ad'
             what = (f'{desc} amalgamate dst_sparse={dst_sparse} second '
